@@ -52,6 +52,19 @@ fn clause_pool(rng: &mut Rng, corpus: &Corpus, n: usize) -> Vec<String> {
     for f in fixed {
         pool.push(f.to_string());
     }
+    // the same letters split at different places (rules that look at the joined spelling), and items
+    // whose verdict could depend on what precedes the chunk
+    let joined = ["without", "today", "cannot", "already", "into", "anyone", "somebody", "notebook", "keyboard", "everyone", "nobody", "maybe", "however", "another"];
+    for _ in 0..3 {
+        let w: Vec<char> = rng.pick(&joined).chars().collect();
+        for _ in 0..3 {
+            let at = rng.range(1, w.len() - 1);
+            pool.push(format!("she left {} {} saying it", w[..at].iter().collect::<String>(), w[at..].iter().collect::<String>()));
+        }
+    }
+    for f in ["ie, the usual", "eg, this one", "ie", "etc", "vs the rest", "al fresco", "st street", "am here"] {
+        pool.push(f.to_string());
+    }
     while pool.len() < n {
         let c = match rng.below(3) {
             0 => gen_clause(rng, corpus, 5, 3),
@@ -73,7 +86,7 @@ fn make_doc(rng: &mut Rng, pool: &[String]) -> String {
     let mut s = String::new();
     for i in 0..n {
         if i > 0 {
-            s.push_str(rng.pick_str(&[", ", ". ", "; ", "\n\n", ". ", " - ", ": "]));
+            s.push_str(rng.pick_str(&[", ", ". ", "; ", "\n\n", ". ", " - ", ": ", ".", ",", ";", ":", " .", "/", "?"]));
         }
         match rng.below(8) {
             0 => {
